@@ -1,3 +1,100 @@
-From Thunder Require Import Sql.Codec.
-Theorem placeholder : True. Proof. exact I. Qed.
-Print Assumptions placeholder.
+(** C13 - Row codec round trip: structs survive conversion to and from SQL values; a filter made of a
+    row's own column values matches the row; a filter shipped through its protobuf encoding is either
+    rejected or matches exactly the same rows.
+    Model: Sql/Codec.v (follows internal/fields/sql.go, sqlgen/reflect.go, livesql/binlog.go,
+    livesql/marshal.go); proofs: Sql/CodecProofs.v.  [env_laws e] are the guarantees of strconv, time
+    and mysql.parseDateTime the codec relies on (parse after format is the identity). *)
+From Coq Require Import List ZArith String.
+From Thunder Require Import Sql.Codec Sql.CodecProofs.
+Import ListNotations.
+Open Scope Z_scope.
+
+(** Every column kind, pointer / NULL / tag combination, every representation MySQL's text protocol,
+    the prepared-statement protocol, the binlog decoder or the protobuf can hand back for the stored
+    driver value: Scanner.Scan gives back the Go value Valuer.Value started from (after C13-fix-1). *)
+Theorem scan_after_value_is_identity :
+  forall e d x c p s,
+    env_laws e -> desc_ok d = true -> fval_ok e d x = true -> col_matches d c p = true ->
+    repr e c p (valuer d (dyn_of d x)) = Some s ->
+    scanner e d s = Ok x.
+Proof. exact scan_roundtrip. Qed.
+Print Assumptions scan_after_value_is_identity.
+
+(** BuildStruct (repr (UnbuildStruct x)) = x, for every table and every column-wise choice of representation. *)
+Theorem build_after_unbuild_is_identity :
+  forall e t x row, env_laws e -> row_repr e t x row -> build e t row = Ok x.
+Proof. exact build_unbuild. Qed.
+Print Assumptions build_after_unbuild_is_identity.
+
+(** parseBinlogRow with the column map built from MySQL's column list (any order, extra columns allowed). *)
+Theorem parse_binlog_row_after_unbuild_is_identity :
+  forall e t x row cols brow,
+    env_laws e -> row_repr e t x row -> NoDup cols -> List.length brow = List.length cols ->
+    Forall2 (fun nd s => exists j, nth_error cols j = Some (fst nd) /\ nth_error brow j = Some s) t row ->
+    parse_binlog_row e t (fst (column_map t cols)) (snd (column_map t cols)) brow = Ok x.
+Proof. exact parse_binlog_roundtrip. Qed.
+Print Assumptions parse_binlog_row_after_unbuild_is_identity.
+
+(** MakeTester (extractRow x).Test x = true. *)
+Theorem tester_matches_own_row :
+  forall e t x,
+    NoDup (map fst t) ->
+    Forall2 (fun nd v => desc_ok (snd nd) = true /\ fval_ok e (snd nd) v = true) t x ->
+    tester t (extract_row t x) (Some x) = true.
+Proof. exact tester_reflexive. Qed.
+Print Assumptions tester_matches_own_row.
+
+(** FilterFromProto (FilterToProto f) is an error or a filter with the same verdict on every row.
+    [filter_typed] excludes exactly: values of another Go base type than the column, and a pointer to a
+    zero value on an implicitnull column (open known finding proto-pointer-to-zero-on-implicitnull-column). *)
+Theorem filter_proto_round_trip_except_known :
+  forall e t f p,
+    env_laws e -> filter_typed e t f = true -> filter_to_proto t f = Ok p ->
+    match filter_from_proto e t p with
+    | Err => True
+    | Ok f' => forall row, tester t f' row = tester t f row
+    end.
+Proof. exact proto_roundtrip. Qed.
+Print Assumptions filter_proto_round_trip_except_known.
+
+(** The excluded class is a genuine counterexample: filter {e: &false} on an implicitnull bool column. *)
+Theorem filter_proto_pointer_to_zero_refuted :
+  exists e t f p f' row,
+    env_laws e /\ filter_to_proto t f = Ok p /\ filter_from_proto e t p = Ok f' /\
+    tester t f row = false /\ tester t f' row = true.
+Proof. exact CodecProofs.filter_proto_pointer_to_zero_refuted. Qed.
+Print Assumptions filter_proto_pointer_to_zero_refuted.
+
+(** F24, the code before C13-fix-1: a uint64 field on an INT UNSIGNED column holding 3000000000 came
+    back from the binlog as 18446744072414584320. *)
+Theorem binlog_unsigned_refuted_before_fix :
+  exists e d x c s,
+    env_laws e /\ desc_ok d = true /\ fval_ok e d x = true /\ col_matches d c PBinlog = true /\
+    repr e c PBinlog (valuer d (dyn_of d x)) = Some s /\
+    x = FVal (GInt 3000000000) /\
+    scanner_gen false e d s = Ok (FVal (GInt 18446744072414584320)).
+Proof. exact CodecProofs.binlog_unsigned_refuted_before_fix. Qed.
+Print Assumptions binlog_unsigned_refuted_before_fix.
+
+(** Non-vacuity: the laws are satisfiable, and a row with a negative int8 from the binlog, a NULL
+    pointer, an implicit NULL, a json-tagged integer read as text and a uint64 on an INT UNSIGNED
+    column meets [row_repr]. *)
+Example laws_satisfiable : env_laws toy_env.
+Proof. exact toy_env_laws. Qed.
+
+Example row_repr_inhabited :
+  let t := [("a"%string, mk_desc (BInt 8) false TNone); ("p"%string, mk_desc BStr true TNone);
+            ("z"%string, mk_desc (BInt 32) false TImplicitNull); ("j"%string, mk_desc (BInt 64) false TJson);
+            ("u"%string, mk_desc (BUint 64) false TNone)] in
+  let x := [FVal (GInt (-5)); FNil; FVal (GInt 0); FVal (GInt (-12)); FVal (GInt 3000000000)] in
+  row_repr toy_env t x [SInt 8 (-5); SNull; SNull; SStr "-12"; SInt 32 (-1294967296)]
+  /\ build toy_env t [SInt 8 (-5); SNull; SNull; SStr "-12"; SInt 32 (-1294967296)] = Ok x.
+Proof.
+  split; [|vm_compute; reflexivity].
+  eapply (rr_cons _ _ _ _ _ _ _ _ (ColInt 8 false) PBinlog); try reflexivity.
+  eapply (rr_cons _ _ _ _ _ _ _ _ ColVarchar PText); try reflexivity.
+  eapply (rr_cons _ _ _ _ _ _ _ _ (ColInt 32 false) PBinary); try reflexivity.
+  eapply (rr_cons _ _ _ _ _ _ _ _ ColVarchar PBinlog); try reflexivity.
+  eapply (rr_cons _ _ _ _ _ _ _ _ (ColInt 32 true) PBinlog); try reflexivity.
+  constructor.
+Qed.
